@@ -380,6 +380,8 @@ type minInst struct {
 	writerFail int
 	isolated   int // 0 no; 1 FuncEvaluations only; 2 MajorIterations only; 3 Runtime only
 	costly     bool
+	knob       int  // method tuning knob variant (0 = defaults)
+	nilMethod  bool // pass method == nil: Minimize picks LBFGS (with Grad) or NelderMead
 	prime      int // the method value is reused: a first Minimize call, stopped by 1 func / 2 grad / 3 hess limit or 4 Problem.Status, precedes the run under test
 	primeN     int
 }
@@ -387,7 +389,7 @@ type minInst struct {
 func drawMinimize(t *simrt.Tape) *minInst {
 	in := &minInst{}
 	in.method = t.Choose(simrt.KWorkload, nMethods)
-	in.dim = 1 + t.Choose(simrt.KWorkload, 6)
+	in.dim = 1 + t.Choose(simrt.KWorkload, 5+scale)
 	if in.method == mNelderMead || in.method == mCmaEs {
 		// keep evaluation counts small
 		in.dim = 1 + t.Choose(simrt.KWorkload, 4)
@@ -411,7 +413,7 @@ func drawMinimize(t *simrt.Tape) *minInst {
 	}
 	s := &in.set
 	s.Concurrent = in.conc
-	small := func(n int) int { return 1 + t.Choose(simrt.KWorkload, n) }
+	small := func(n int) int { return 1 + t.Choose(simrt.KWorkload, n*scale) }
 	switch in.isolated {
 	case 0:
 		mask := 1 + t.Choose(simrt.KWorkload, 31)
@@ -498,9 +500,13 @@ func drawMinimize(t *simrt.Tape) *minInst {
 	if in.method == mListSearch {
 		in.rows = small(12)
 	}
+	in.knob = t.Choose(simrt.KWorkload, 3)
+	if (in.method == mLBFGS || in.method == mNelderMead) && in.ls == 0 && in.knob == 0 && t.Choose(simrt.KWorkload, 3) == 2 {
+		in.nilMethod = true
+	}
 	if in.method == mStub {
 		in.stubCfg = drawStub(t)
-	} else if t.Choose(simrt.KWorkload, 4) == 3 {
+	} else if !in.nilMethod && t.Choose(simrt.KWorkload, 4) == 3 {
 		// method values are reusable: Init must reset whatever an earlier,
 		// possibly interrupted, run left behind
 		in.prime = 1 + t.Choose(simrt.KWorkload, 4)
@@ -515,6 +521,10 @@ func (in *minInst) describe(m map[string]interface{}) {
 		m["linesearcher"] = []string{"default", "Backtracking", "Bisection", "MoreThuente"}[in.ls]
 	}
 	m["dim"] = in.dim
+	m["method_knobs"] = in.knob
+	if in.nilMethod {
+		m["method"] = "nil (default: " + methodNames[in.method] + ")"
+	}
 	m["objective"] = in.obj.name
 	m["initX"] = fmt.Sprint(in.initX)
 	m["concurrent"] = in.conc
@@ -578,29 +588,31 @@ func (in *minInst) build() *minRun {
 	case 3:
 		ls = &optimize.MoreThuente{}
 	}
+	// tuning knobs: correctness must not depend on one configuration
+	gst := []float64{0, 1e-4, 0}[in.knob]
 	switch in.method {
 	case mGD:
-		r.method = &optimize.GradientDescent{Linesearcher: ls}
+		r.method = &optimize.GradientDescent{Linesearcher: ls, GradStopThreshold: gst}
 	case mCGFR:
-		r.method = &optimize.CG{Linesearcher: ls, Variant: &optimize.FletcherReeves{}}
+		r.method = &optimize.CG{Linesearcher: ls, Variant: &optimize.FletcherReeves{}, GradStopThreshold: gst, IterationRestartFactor: float64(2 * (in.knob / 2))}
 	case mCGPRP:
-		r.method = &optimize.CG{Linesearcher: ls, Variant: &optimize.PolakRibierePolyak{}}
+		r.method = &optimize.CG{Linesearcher: ls, Variant: &optimize.PolakRibierePolyak{}, GradStopThreshold: gst, IterationRestartFactor: float64(2 * (in.knob / 2))}
 	case mCGHS:
-		r.method = &optimize.CG{Linesearcher: ls, Variant: &optimize.HestenesStiefel{}}
+		r.method = &optimize.CG{Linesearcher: ls, Variant: &optimize.HestenesStiefel{}, GradStopThreshold: gst}
 	case mCGDY:
-		r.method = &optimize.CG{Linesearcher: ls, Variant: &optimize.DaiYuan{}}
+		r.method = &optimize.CG{Linesearcher: ls, Variant: &optimize.DaiYuan{}, GradStopThreshold: gst}
 	case mCGHZ:
-		r.method = &optimize.CG{Linesearcher: ls, Variant: &optimize.HagerZhang{}}
+		r.method = &optimize.CG{Linesearcher: ls, Variant: &optimize.HagerZhang{}, GradStopThreshold: gst}
 	case mBFGS:
-		r.method = &optimize.BFGS{Linesearcher: ls}
+		r.method = &optimize.BFGS{Linesearcher: ls, GradStopThreshold: gst}
 	case mLBFGS:
-		r.method = &optimize.LBFGS{Linesearcher: ls}
+		r.method = &optimize.LBFGS{Linesearcher: ls, GradStopThreshold: gst, Store: []int{0, 1, 3}[in.knob]}
 	case mNewton:
-		r.method = &optimize.Newton{Linesearcher: ls}
+		r.method = &optimize.Newton{Linesearcher: ls, GradStopThreshold: gst, Increase: []float64{0, 5, 2}[in.knob]}
 	case mNelderMead:
-		r.method = &optimize.NelderMead{}
+		r.method = &optimize.NelderMead{SimplexSize: []float64{0, 1, 0.25}[in.knob]}
 	case mCmaEs:
-		r.method = &optimize.CmaEsChol{Population: in.pop, ForgetBest: in.forgetBest, StopLogDet: math.NaN(), Src: rand.NewPCG(in.seed, 77)}
+		r.method = &optimize.CmaEsChol{Population: in.pop, ForgetBest: in.forgetBest, StopLogDet: math.NaN(), Src: rand.NewPCG(in.seed, 77), InitStepSize: []float64{0, 0.5, 2}[in.knob]}
 		r.pop = in.pop
 		if r.pop == 0 {
 			r.pop = 4 + int(3*math.Log(float64(in.dim)))
@@ -760,7 +772,11 @@ func (r *minRun) run() {
 	}
 	r.t0 = simrt.Elapsed()
 	x := append([]float64(nil), r.in.initX...)
-	r.res, r.err = optimize.Minimize(r.prob, x, &r.set, r.method)
+	method := r.method
+	if r.in.nilMethod {
+		method = nil
+	}
+	r.res, r.err = optimize.Minimize(r.prob, x, &r.set, method)
 	r.t1 = simrt.Elapsed()
 }
 
@@ -1121,6 +1137,9 @@ func checkC19(rc *RunCtx, in *minInst, r *minRun, nTasks int) *Violation {
 		// MajorIterations; local methods also apply their own
 		// GradStopThreshold, which the harness leaves at its default 1e-12.
 		th := 1e-12
+		if in.knob == 1 && usesLS(in.method) {
+			th = 1e-4 // the method's own GradStopThreshold
+		}
 		if in.set.GradientThreshold > th {
 			th = in.set.GradientThreshold
 		}
